@@ -124,7 +124,14 @@ REC = None
 META, READ, MUT = "meta", "read", "mutate"
 
 
+_INSTALLED = False
+
+
 def _install_interposition():
+    global _INSTALLED
+    if _INSTALLED:          # pool processes are reused: wrap once
+        return
+    _INSTALLED = True
     import builtins
     import io
 
@@ -206,6 +213,28 @@ def _features(p: str, cwd: str):
         except ValueError:
             break
     return {"dotdot": has_dotdot, "bad_ext": bad_ext, "links": links}
+
+
+def _observe(p):
+    """model-of-OS observations (pathlib on the real tree, current cwd): resolve() and exists/is_symlink/is_dir."""
+    from pathlib import Path
+    try:
+        res = str(Path(p).absolute().resolve(strict=False))
+    except Exception:  # noqa
+        res = "ERR"
+    try:
+        ex = "T" if Path(p).absolute().exists() else "F"
+    except OSError:
+        ex = "R"
+    try:
+        sl = "1" if Path(p).absolute().is_symlink() else "0"     # lstat: a dangling link IS a link
+    except OSError:
+        sl = "R"
+    try:
+        dr = "1" if Path(p).absolute().is_dir() else "0"
+    except OSError:
+        dr = "?"
+    return res, ex + sl + dr
 
 
 def _one_call(tool, p, env):
@@ -327,24 +356,7 @@ def worker(job):
             if not safe:
                 results.append({"path": praw, "skipped": "names a file outside the scratch tree"})
                 continue
-            # ---- model-of-OS observations (pathlib on the real tree) ----
-            try:
-                rec["res"] = str(Path(p).absolute().resolve(strict=False))
-            except Exception as e:  # noqa
-                rec["res"] = "ERR"
-            try:
-                ex = "T" if Path(p).absolute().exists() else "F"
-            except OSError:
-                ex = "R"
-            try:
-                sl = "1" if Path(p).absolute().is_symlink() else "0"     # lstat: a dangling link IS a link
-            except OSError:
-                sl = "R"
-            try:
-                dr = "1" if Path(p).absolute().is_dir() else "0"
-            except OSError:
-                dr = "?"
-            rec["st"] = ex + sl + dr
+            rec["res"], rec["st"] = _observe(p)
             rec["feat"] = _features(p, cwd)
             rec["calls"] = {}
             for tool in tools:
@@ -570,9 +582,10 @@ def frozen_and_uri(job):
     _install_interposition()
     from pathlib import Path
     from octave_mcp.core import hydrator
+    from octave_mcp.core.parser import parse
     base = os.path.realpath(tempfile.mkdtemp(prefix="c19f_"))
     try:
-        spec = tree_spec(2, base)
+        spec = tree_spec(2, base) + sibling_spec(base)
         build_tree(base, spec)
         cache = base + "/sb/cache"
         os.mkdir(cache)
@@ -605,19 +618,82 @@ def frozen_and_uri(job):
             touched = [a[0] for (nm, c, ok, a, _e) in ops if c in (READ, MUT) and a and a[0] != "<fd>"]
             esc = [t.replace(base, "{B}") for t in touched if os.path.dirname(t) != cache]
             fro.append((ref, oc, okhash, parent_ok, esc))
+        # decoys beside the cache whose names have the cache directory's name as a proper prefix
+        for sib in ("cache-private", "cache2"):
+            os.mkdir(base + "/sb/" + sib)
+            with open(base + "/sb/" + sib + "/" + dg[:16] + ".oct.md", "wb") as f:
+                f.write(good)
         uris = []
-        basep = base + "/sb"
-        for u in job["uris"]:
+        doc = parse(HYDRATED.replace("{uri}", "placeholder"))
+        uri_nodes = [ch for sec in doc.sections if getattr(sec, "key", None) == "MANIFEST" for ch in getattr(sec, "children", [])
+                     if getattr(ch, "key", None) == "SOURCE_URI"]
+        assert len(uri_nodes) == 1, "hydrated template did not parse to one SOURCE_URI"
+
+        def outside_reads(ops, root_real):
+            bad = []
+            for (nm, c, ok, a, _e) in ops:
+                if c in (READ, MUT) and a and a[0] != "<fd>":
+                    try:
+                        rp = os.path.realpath(a[0])
+                    except ValueError:
+                        continue
+                    if not (rp + "/").startswith(root_real + "/"):
+                        bad.append((nm, a[0].replace(base, "{B}")))
+            return bad
+
+        for base_rel, uraw in job["uris"]:
+            u = uraw.replace("{B}", base)
+            basep = base + "/" + base_rel
+            root_real = os.path.realpath(basep)
+            try:
+                escapes = not (os.path.realpath(os.path.join(basep, u)) + "/").startswith(root_real + "/")
+            except ValueError:
+                escapes = None
             try:
                 p = hydrator.validate_source_uri(u, Path(basep))
                 oc = "OK " + str(p).replace(base, "{B}")
-                inside = (str(p) + "/").startswith(os.path.realpath(basep) + "/")
+                inside = (str(p) + "/").startswith(root_real + "/")
             except hydrator.SourceUriSecurityError:
                 oc, inside = "REFUSED", True
             except BaseException as e:  # noqa
                 oc, inside = "RAISE:" + type(e).__name__, True
-            uris.append((u, oc, inside))
-        return {"base": base, "digests": (dg, dbad), "frozen": fro, "uris": uris,
+            # check_staleness on a hydrated document whose manifest names this SOURCE_URI (value set in the AST: any string)
+            uri_nodes[0].value = u
+            REC = []
+            try:
+                rs = hydrator.check_staleness(doc, base_path=Path(basep))
+                status = rs[0].status if rs else "NONE"
+                got_hash = bool(rs and rs[0].actual_hash)
+            except BaseException as e:  # noqa
+                status, got_hash = "EXC:" + type(e).__name__, False
+            ops = REC
+            REC = None
+            uris.append((base_rel, uraw, oc, inside, {"escapes": escapes, "status": status, "hash": got_hash, "outside_reads": outside_reads(ops, root_real)}))
+        # CLI: octave hydrate FILE --check --project-root <base dir>
+        clis = []
+        from click.testing import CliRunner
+        from octave_mcp.cli.main import cli
+        for base_rel, uraw in job.get("cli_uris", []):
+            u = uraw.replace("{B}", base)
+            basep = base + "/" + base_rel
+            root_real = os.path.realpath(basep)
+            docp = basep + "/zz_hydrated.oct.md"
+            with open(docp, "w", encoding="utf-8") as f:
+                f.write(HYDRATED.replace("{uri}", u))
+            escapes = not (os.path.realpath(os.path.join(basep, u)) + "/").startswith(root_real + "/")
+            REC = []
+            try:
+                r = CliRunner().invoke(cli, ["hydrate", docp, "--check", "--project-root", basep])
+                text = r.output or ""
+                words = sorted({w for w in ("FRESH:", "STALE:", "ERROR:", "Security violation", "No SNAPSHOT") if w in text})
+                oc = "exit=%s %s" % (r.exit_code, ",".join(words))
+            except BaseException as e:  # noqa
+                oc = "EXC:" + type(e).__name__
+            ops = REC
+            REC = None
+            os.unlink(docp)
+            clis.append((base_rel, uraw, oc, {"escapes": escapes, "outside_reads": outside_reads(ops, root_real)}))
+        return {"base": base, "digests": (dg, dbad), "frozen": fro, "uris": uris, "cli": clis,
                 "oracle": [(good.decode(), dg), (bad.decode(), hashlib.sha256(bad).hexdigest())]}
     finally:
         shutil.rmtree(base, ignore_errors=True)
@@ -631,9 +707,31 @@ def frozen_refs(dg, dbad):
             P + "0" * 64, P + dg[:16] + "0" * 48, P, "latest", "", "frozen@", P + dg[:32] + "\x00" + dg[33:], P + "A" * 64]
 
 
+VOCAB = '===VOCAB===\nMETA:\n  TYPE::"CAPSULE"\n  VERSION::"1.0"\nALPHA::"x"\n===END===\n'
+HYDRATED = ('===HYDRATED_DOC===\nMETA:\n  TYPE::"SPEC"\n  VERSION::"1.0.0"\n\n\u00a7CONTEXT::SNAPSHOT["@test/vocabulary"]\n  ALPHA::"First letter"\n\n'
+            '\u00a7SNAPSHOT::MANIFEST\n  SOURCE_URI::"{uri}"\n  SOURCE_HASH::"sha256:' + "0" * 64 + '"\n===END===\n')
+# directories BESIDE a base directory whose names have the base directory's name as a proper prefix: a containment test on
+# the characters of the resolved string (startswith / commonprefix) instead of on its components lets them through
+SIB_SUFFIXES = ("-private", "2", "_old", ".bak")
+URI_BASES = ("sb", "sb/d")
+
+
+def sibling_spec(base):
+    t = [("sb/x.oct.md", "f", VOCAB), ("sb/d/x.oct.md", "f", VOCAB)]
+    for suf in SIB_SUFFIXES:
+        for parent, nm in (("", "sb"), ("sb/", "d")):
+            sib = parent + nm + suf
+            t += [(sib, "d", ""), (sib + "/x.oct.md", "f", VOCAB), (sib + "/secret.oct.md", "f", SECRET)]
+    t += [("sb/lsib", "l", "../sb-private"), ("sb/lsiba", "l", base + "/sb_old"), ("sb/lsibf.oct.md", "l", "../sb2/x.oct.md"),
+          ("sb/d/ldsib", "l", "../d2"), ("sb/d/ldsibf.oct.md", "l", base + "/sb/d.bak/secret.oct.md")]
+    return t
+
+
 def gen_uris(ctx):
+    """[(base dir relative to the scratch root, uri)]; {B} = scratch root."""
     segs = ["d", "e", "ld", "ldi", "dangd", "ldd", ".", "..", "", "f.md", "lf.md", "lfi.md", "dang.md", "loop.md", "up.md",
-            "new.md", "lsd", "s2.oct.md", "secret.md", "deep.md", "x\x00", "C:", "sb", "out"]
+            "new.md", "lsd", "s2.oct.md", "secret.md", "deep.md", "x\x00", "C:", "sb", "out",
+            "sb-private", "sb2", "sb_old", "sb.bak", "x.oct.md", "secret.oct.md", "lsib", "lsiba", "lsibf.oct.md"]
     out = ["", "/etc/passwd", "C:/x", "c:", "a:b", "../out/secret.md", "ld/secret.md", "d/../../out/secret.md", "//x", "./f.md"]
     for a in segs:
         out.append(a)
@@ -642,7 +740,280 @@ def gen_uris(ctx):
     rng = ctx.rng
     for _ in range(ctx.scale(300, 6000)):
         out.append("/".join(rng.choice(segs) for _ in range(rng.choice((3, 4)))))
-    return sorted(set(out))
+    res = [("sb", u) for u in sorted(set(out))]
+    res += sibling_uris()
+    dsegs = ["..", ".", "", "e", "d", "d2", "d-private", "d_old", "d.bak", "x.oct.md", "secret.oct.md", "ldsib", "ldsibf.oct.md", "sb", "sb2"]
+    dset = set()
+    for a in dsegs:
+        dset.add(a)
+        for b in dsegs:
+            dset.add(a + "/" + b)
+            if a == "..":
+                for c in dsegs:
+                    dset.add(a + "/" + b + "/" + c)
+    res += [("sb/d", u) for u in sorted(dset)]
+    seen, uniq = set(), []
+    for x in res:
+        if x not in seen:
+            seen.add(x)
+            uniq.append(x)
+    return uniq
+
+
+def sibling_uris():
+    """explicit prefix-sibling escapes: via '..', via an absolute path, via a link inside the base (also used for the CLI)."""
+    out = []
+    for suf in SIB_SUFFIXES:
+        for f in ("x.oct.md", "secret.oct.md"):
+            out += [("sb", "../sb%s/%s" % (suf, f)), ("sb", "d/../../sb%s/%s" % (suf, f)), ("sb", "./../sb%s/./%s" % (suf, f)),
+                    ("sb", "{B}/sb%s/%s" % (suf, f)), ("sb", "../sb/../sb%s/%s" % (suf, f)),
+                    ("sb/d", "../d%s/%s" % (suf, f)), ("sb/d", "../../sb%s/%s" % (suf, f)), ("sb/d", "e/../../d%s/%s" % (suf, f)),
+                    ("sb/d", "{B}/sb/d%s/%s" % (suf, f))]
+    out += [("sb", "lsib/x.oct.md"), ("sb", "lsib/secret.oct.md"), ("sb", "lsiba/x.oct.md"), ("sb", "lsibf.oct.md"), ("sb", "lsib"),
+            ("sb/d", "ldsib/x.oct.md"), ("sb/d", "ldsibf.oct.md"), ("sb/d", "../lsib/x.oct.md"),
+            # controls: inside the base (must be accepted / hashed), and an unrelated outside directory
+            ("sb", "x.oct.md"), ("sb", "d/x.oct.md"), ("sb", "d/../x.oct.md"), ("sb/d", "x.oct.md"), ("sb/d", "e/../x.oct.md"),
+            ("sb", "../out/secret.md"), ("sb/d", "../../out/secret.md"), ("sb/d", "../x.oct.md")]
+    return out
+
+
+# ------------------------------------------------------------------------------------------------
+# history stream: the IDENTICAL call repeated in ONE process while the tree (or the cwd) changes in between.
+# A verdict is a statement about the file system NOW; anything remembered from an earlier call with the same string
+# (positive or negative) shows up here.  The model has no memory: for every step it is evaluated on the tree as it is
+# immediately before that step's call (tree_to_spec of the real directory) and on that step's cwd.
+# ------------------------------------------------------------------------------------------------
+H_TOOLS = ("w", "v", "f", "vp", "cli")
+H_KINDS = ("out-abs", "out-rel", "in-rel", "dangling")
+H_EXTS = (".oct.md", ".md", ".octave")
+
+
+def tree_to_spec(root):
+    out = []
+    for dirpath, dirnames, filenames in os.walk(root):
+        dirnames.sort()
+        for n in sorted(dirnames + filenames):
+            p = os.path.join(dirpath, n)
+            rel = os.path.relpath(p, root)
+            if os.path.islink(p):
+                out.append((rel, "l", os.readlink(p)))
+            elif os.path.isdir(p):
+                out.append((rel, "d", ""))
+            else:
+                out.append((rel, "f", "x"))
+    return out
+
+
+def apply_ops(root, ops):
+    for op in ops:
+        p = os.path.join(root, op[1])
+        if op[0] == "rm":
+            if os.path.islink(p) or os.path.isfile(p):
+                os.unlink(p)
+            elif os.path.isdir(p):
+                shutil.rmtree(p)
+        elif op[0] == "d":
+            os.makedirs(p, exist_ok=True)
+        elif op[0] == "f":
+            with open(p, "w", encoding="utf-8") as f:
+                f.write(op[2])
+        elif op[0] == "l":
+            os.symlink(op[2].replace("{H}", root), p)
+        else:
+            raise ValueError(op)
+
+
+def h_init_ops(sb, name):
+    """sandbox `sb` (relative to the history root) with in-sandbox mirror dirs; outside dir out/ with secrets and mirrors."""
+    return [("d", sb), ("d", "out"), ("f", "out/secret.md", SECRET), ("d", "out/ma/b"), ("f", "out/ma/b/" + name, SECRET),
+            ("d", "out/mb"), ("f", "out/mb/" + name, SECRET), ("d", sb + "/oa/b"), ("f", sb + "/oa/b/" + name, DOC),
+            ("d", sb + "/ob"), ("f", sb + "/ob/" + name, DOC)]
+
+
+def h_config_ops(sb, cfg, name, need_file):
+    """ops that REPLACE the directory sb/a by the configuration cfg = ("real",) | ("link", position a|b|last, kind):
+    sb/a/b/<name> with every component real, or with the component at `position` swapped for a symbolic link."""
+    a = sb + "/a"
+    ops = [("rm", a)]
+    if cfg[0] == "real":
+        ops.append(("d", a + "/b"))
+        if need_file:
+            ops.append(("f", a + "/b/" + name, DOC))
+        return ops
+    _, pos, kind = cfg
+    link = {"a": a, "b": a + "/b", "last": a + "/b/" + name}[pos]
+    outside = {"a": "out/ma", "b": "out/mb", "last": "out/secret.md"}[pos]
+    inside = {"a": sb + "/oa", "b": sb + "/ob", "last": sb + "/oa/b/" + name}[pos]
+    if kind == "out-abs":
+        tgt = "{H}/" + outside
+    elif kind == "out-rel":
+        tgt = os.path.relpath(outside, os.path.dirname(link))
+    elif kind == "in-rel":
+        tgt = os.path.relpath(inside, os.path.dirname(link))
+    else:
+        tgt = os.path.relpath("out/nowhere", os.path.dirname(link))
+    if pos == "b":
+        ops.append(("d", a))
+    elif pos == "last":
+        ops.append(("d", a + "/b"))
+    ops.append(("l", link, tgt))
+    return ops
+
+
+def gen_histories(ctx):
+    rng = ctx.rng
+    hs = []
+
+    def add(tool, kind, name, form, cfgs, chdir=False):
+        need_file = tool == "v" or rng.random() < 0.5
+        if chdir:
+            # two sandboxes under one root; the same RELATIVE string, the cwd alternates; no tree change between the calls
+            real_sb, link_sb = "t1/sb", "t2/sb"
+            link_cfg = [c for c in cfgs if c[0] == "link"][0]
+            init = (h_init_ops(real_sb, name) + h_init_ops(link_sb, name) + h_config_ops(real_sb, ("real",), name, need_file)
+                    + h_config_ops(link_sb, link_cfg, name, need_file))
+            steps = [{"ops": [], "cwd": real_sb if c[0] == "real" else link_sb, "path": "a/b/" + name, "state": c[0], "cfg": list(c)} for c in cfgs]
+            sand = [real_sb, link_sb]
+        else:
+            init = h_init_ops("sb", name)
+            path = {"abs": "{H}/sb/a/b/" + name, "rel": "a/b/" + name, "rel-dot": "./a//b/" + name}[form]
+            steps = [{"ops": h_config_ops("sb", c, name, need_file), "cwd": "sb", "path": path, "state": c[0], "cfg": list(c)} for c in cfgs]
+            sand = ["sb"]
+        hs.append({"id": len(hs), "tool": tool, "kind": kind, "form": "rel+chdir" if chdir else form, "init": init, "steps": steps, "sandboxes": sand})
+
+    k = 0
+    for tool in H_TOOLS:
+        for pos in ("a", "b", "last"):
+            for kind in H_KINDS:
+                link = ("link", pos, kind)
+                for order in ((("real",), link, ("real",)), (link, ("real",), link)):
+                    name = "n" + H_EXTS[k % 3]
+                    k += 1
+                    for form in ("abs", "rel"):
+                        add(tool, ("last-swap" if pos == "last" else "mid-swap") + ":" + ("accept-first" if order[0][0] == "real" else "refuse-first"),
+                            name, form, order)
+                    if kind in ("out-abs", "in-rel"):
+                        add(tool, "chdir:" + ("accept-first" if order[0][0] == "real" else "refuse-first"), name, "rel", order, chdir=True)
+    for _ in range(ctx.scale(0, 2500)):
+        tool = rng.choice(H_TOOLS)
+        name = rng.choice(("n", "report", "x.tar")) + rng.choice(H_EXTS)
+        cfgs = []
+        for _i in range(rng.choice((4, 5, 6, 7))):
+            cfgs.append(("real",) if rng.random() < 0.45 else ("link", rng.choice(("a", "b", "last")), rng.choice(H_KINDS)))
+        if rng.random() < 0.2 and any(c[0] == "link" for c in cfgs):
+            lc = [c for c in cfgs if c[0] == "link"][0]
+            cfgs = [c if c[0] == "real" else lc for c in cfgs]
+            add(tool, "random-chdir", name, "rel", cfgs, chdir=True)
+        else:
+            add(tool, "random-swap", name, rng.choice(("abs", "rel", "rel-dot")), cfgs)
+    return hs
+
+
+def history_worker(job):
+    sys.path.insert(0, str(REPO / "src"))
+    _install_interposition()
+    from octave_mcp.cli.main import cli
+    from octave_mcp.core import file_ops
+    from octave_mcp.mcp.validate import ValidateTool
+    from octave_mcp.mcp.write import WriteTool
+    if job.get("mutate"):
+        _apply_mutation(job["mutate"])
+    base = os.path.realpath(tempfile.mkdtemp(prefix="c19h_"))
+    wt, vt = WriteTool(), ValidateTool()       # ONE process, ONE set of tool objects for all steps of all histories of the job
+    out = []
+    try:
+        for h in job["histories"]:
+            H = os.path.join(base, "h%d" % h["id"])
+            os.makedirs(H)
+            apply_ops(H, h["init"])
+            steps = []
+            for st in h["steps"]:
+                os.chdir("/")
+                apply_ops(H, st["ops"])
+                cwd = os.path.join(H, st["cwd"])
+                os.chdir(cwd)
+                p = st["path"].replace("{H}", H)
+                tgt_lex = os.path.normpath(os.path.join(cwd, p))
+                tgt_real = os.path.realpath(os.path.join(cwd, p))
+                if not all((t + "/").startswith(H + "/") for t in (tgt_lex, tgt_real)):
+                    steps.append({"skipped": "names a file outside the scratch tree"})
+                    continue
+                spec = tree_to_spec(H)
+                res, stt = _observe(p)
+                feat = _features(p, cwd)
+                env = {"wt": wt, "vt": vt, "file_ops": file_ops, "prefixes": job["prefixes"], "base": H, "cwd": cwd,
+                       "sandboxes": [os.path.join(H, x) for x in h["sandboxes"]], "cli": cli}
+                c = _one_call(h["tool"], p, env)
+                steps.append({"spec": spec, "res": res.replace(H, "{H}"), "st": stt, "feat": feat, "call": c})
+            os.chdir("/")
+            shutil.rmtree(H, ignore_errors=True)
+            out.append({"h": h, "H": H, "steps": steps})
+        return out
+    finally:
+        os.chdir("/")
+        shutil.rmtree(base, ignore_errors=True)
+
+
+def model_history(hres):
+    """Model verdicts per step, each on the tree snapshot taken immediately before that step's call."""
+    lines, idx = [], []
+    for i, hr in enumerate(hres):
+        H = hr["H"]
+        for j, (st, sr) in enumerate(zip(hr["h"]["steps"], hr["steps"])):
+            if "skipped" in sr:
+                continue
+            e = enc_str(st["path"].replace("{H}", H))
+            lines += [fs_line(H, sr["spec"]), "cwd " + enc_path([c for c in (H + "/" + st["cwd"]).split("/") if c]),
+                      f"val w {e}", f"val v {e}", f"val f {e}", f"res {e}", f"st {e}"]
+            idx.append((i, j))
+    res = run_driver("pathm", lines) if lines else []
+    out = {}
+    for k, key in enumerate(idx):
+        _ok1, _ok2, w, v, f, rs, st = res[7 * k: 7 * k + 7]
+        H = hres[key[0]]["H"]
+        out[key] = {"w": w, "v": v, "f": f, "res": "ERR" if rs.startswith("ERR") else dec_path(rs.split(" ")[1]).replace(H, "{H}"),
+                    "st": st, "loop": rs == "ERR LOOP"}
+    return out
+
+
+def judge_histories(ctx, hres, have_model):
+    mm = model_history(hres) if have_model else {}
+    nsteps = 0
+    for i, hr in enumerate(hres):
+        h = hr["h"]
+        tool = h["tool"]
+        prev = []
+        for j, (st, sr) in enumerate(zip(h["steps"], hr["steps"])):
+            if "skipped" in sr:
+                ctx.obligation_failure("history", f"history {h['id']} step {j} skipped: {sr['skipped']}")
+                continue
+            nsteps += 1
+            ctx.count()
+            c, feat = sr["call"], sr["feat"]
+            oc = c["outcome"]
+            ctx.hist("history_" + tool, st["state"] + " -> " + oc)
+            ctx.hist("history_kinds", h["kind"])
+            ctx.nontrivial(("history", h["id"], tool, h["kind"], h["form"], j, json.dumps(st["cfg"])))
+            m = mm.get((i, j))
+            oom = m is not None and m["loop"] and sr["res"] != "ERR"
+            case = {"stream": "history (one process; the identical call is repeated after the tree / the cwd changed)",
+                    "history": {"kind": h["kind"], "form": h["form"], "init_ops": h["init"], "steps": h["steps"], "sandboxes": h["sandboxes"]},
+                    "step": j, "tool": TOOL_NAME[tool], "path": st["path"], "cwd": st["cwd"], "tree_before_call": sr["spec"],
+                    "outcomes_of_earlier_steps": list(prev), "outcome": oc, "features": feat, "snapshot_diff": c["diff"],
+                    "io_ops": c["io"], "failed_io_attempts": c["tried"]}
+            forbidden = feat["dotdot"] or feat["bad_ext"] or bool(feat["links"])
+            if (st["state"] == "link") != forbidden:
+                ctx.obligation_failure("history", f"history {h['id']} step {j}: generator state {st['state']} but features {feat}")
+            if m is not None and not oom:
+                if not (m["res"] == sr["res"] and m["st"][0] == sr["st"][0] and m["st"][1] == sr["st"][1]):
+                    ctx.correspondence_failure(dict(case, os=[sr["res"], sr["st"]], model=[m["res"], m["st"]]),
+                                               "model-of-OS (history stream): resolve/exists/is_symlink differ from pathlib on the current tree")
+            judge_call(ctx, case, tool, c, feat, m, oom)
+            if not forbidden and oc.startswith("E_PATH") and m is None:
+                # without the model: a clean path (every component a real directory, allowed extension) must not be refused
+                ctx.correspondence_failure(case, "clean path refused with E_PATH after an earlier refusal of the same string (stale negative verdict)")
+            prev.append(st["state"] + " -> " + oc)
+    return nsteps
 
 
 TOOL_NAME = {"w": "octave_write", "v": "octave_validate", "f": "atomic_write_octave", "vp": "validate_octave_path", "cli": "cli write"}
@@ -749,9 +1120,13 @@ def run(ctx):
             split.append(jj)
     with mp.Pool(min(16, max(2, len(split)))) as pool:
         batches = pool.map(worker, split)
+        hists = gen_histories(ctx)
+        nchunk = min(16, max(1, len(hists) // 25))
+        hres = [x for part in pool.map(history_worker, [{"histories": hists[k::nchunk], "prefixes": prefixes, "mutate": mutate}
+                                                         for k in range(nchunk)]) for x in part]
         rng_names = ["META", "META\n", "DECOY", "DECOY\n", "../secret/DECOY", "/etc/passwd", "DECOY/../../secret/DECOY", "decoy", "A", "SESSION_LOG", "..", "", "D\u00c9COY"]
         se = pool.apply(schema_end_to_end, ({"names": rng_names},))
-        fu = pool.apply(frozen_and_uri, ({"uris": gen_uris(ctx)},))
+        fu = pool.apply(frozen_and_uri, ({"uris": gen_uris(ctx), "cli_uris": [x for x in sibling_uris() if "\x00" not in x[1]]},))
     ctx.extra["rule"] = (
         "corpus first (witnesses of the finding fixed by 039cc0c -- dangling link as last / as directory component, ENOTDIR link, "
         "41-link chain -- must be refused E_PATH by all three tools with an unchanged tree and no read/mutate attempt); then "
@@ -817,6 +1192,19 @@ def run(ctx):
                 judge_call(ctx, case, tool, c, feat, m, oom)
     for key in sorted(set(expect) - expect_seen):
         ctx.obligation_failure("corpus", f"corpus case {key} with an expectation was not executed")
+    # ---- history stream ----
+    hsteps = judge_histories(ctx, hres, have_model)
+    ctx.extra["history_stream"] = {
+        "histories": len(hres), "steps": hsteps, "surfaces": [TOOL_NAME[t] for t in H_TOOLS],
+        "rule": ("per surface: sb/a/b/<name> written/validated while every component is a real directory, then sb/a is REPLACED so that the "
+                 "component a, b or the last one is a symbolic link (to an outside dir by absolute / relative target, to a dir inside the "
+                 "sandbox, dangling), or the cwd moves to a second sandbox where the same relative string crosses such a link; then the "
+                 "IDENTICAL call is repeated in the same process (same tool objects): it must be refused, the tree outside the sandbox "
+                 "byte-identical, nothing read; and the reverse order (refused first, link replaced by a real directory, then accepted); "
+                 "thorough adds random histories of 4-7 configurations"),
+        "model": ("the model has no memory: the verdict expected at step k is validate_* evaluated on the tree as it is immediately "
+                  "before step k's call (walk of the real directory) and on step k's cwd -- a function of the CURRENT tree only"),
+    }
     ctx.extra["corpus_expectations_replayed"] = len(expect_seen)
     ctx.extra["os_model_checked"] = os_checked
     ctx.extra["os_model_disagreements"] = os_bad
@@ -850,7 +1238,7 @@ def run(ctx):
     base = fu["base"]
     dg, dbad = fu["digests"]
     if have_model:
-        spec = tree_spec(2, base) + [("sb/cache", "d", "")]
+        spec = tree_spec(2, base) + sibling_spec(base) + [("sb/cache", "d", "")]
         ents = fs_line(base, spec)
         segs = [c for c in base.split("/") if c]
         orc = fu["oracle"]
@@ -860,8 +1248,8 @@ def run(ctx):
         lines = [ents]
         for ref, *_ in fu["frozen"]:
             lines.append("rfrozen " + enc_path(segs + ["sb", "cache"]) + " " + enc_str(ref) + " " + tbl)
-        for u, *_ in fu["uris"]:
-            lines.append("uri " + enc_path(segs + ["sb"]) + " " + enc_str(u))
+        for base_rel, u, *_ in fu["uris"]:
+            lines.append("uri " + enc_path(segs + base_rel.split("/")) + " " + enc_str(u.replace("{B}", base)))
         mres = run_driver("pathm", lines)[1:]
     else:
         mres = None
@@ -882,14 +1270,32 @@ def run(ctx):
             if mm != oc:
                 ctx.correspondence_failure(dict(case, model=mm), "resolve_hermetic_standard differs from the model")
     off = len(fu["frozen"])
-    for i, (u, oc, inside) in enumerate(fu["uris"]):
-        ctx.count()
+    def sib_class(u):
+        cs = u.replace("{B}", "").split("/")
+        if any(c in ("lsib", "lsiba", "lsibf.oct.md", "ldsib", "ldsibf.oct.md") for c in cs):
+            return "link-to-prefix-sibling"
+        if any(c.startswith(("sb", "d")) and c[len("sb") if c.startswith("sb") else 1:] in SIB_SUFFIXES for c in cs):
+            return "abs-prefix-sibling" if u.startswith(("/", "{B}")) else "dotdot-prefix-sibling"
+        return "other"
+
+    for i, (base_rel, u, oc, inside, stale) in enumerate(fu["uris"]):
+        ctx.count(2)
         ctx.hist("source_uri", oc.split(" ")[0].split(":")[0])
-        case = {"source_uri": u, "outcome": oc}
-        if oc.startswith("OK"):
-            ctx.nontrivial(("uri", u))
-            if not inside:
-                ctx.property_failure(case, "source URI resolved outside its base directory")
+        sc = sib_class(u)
+        ctx.hist("source_uri_class", sc + (":escapes" if stale["escapes"] else ":inside" if stale["escapes"] is False else ":nul"))
+        ctx.hist("staleness", ("escaping" if stale["escapes"] else "inside") + " -> " + stale["status"])
+        case = {"source_uri": u, "base": "{B}/" + base_rel, "outcome": oc, "escapes_base(os.path.realpath)": stale["escapes"]}
+        if oc.startswith("OK") or sc != "other":
+            ctx.nontrivial(("uri", base_rel, u))
+        if oc.startswith("OK") and not inside:
+            ctx.property_failure(case, "source URI resolved outside its base directory")
+        # check_staleness on a manifest naming this URI: an escaping URI must end in ERROR without a hash, and no file outside the
+        # base may be opened for any URI
+        scase = dict(case, surface="check_staleness(doc, base_path=base)", staleness=stale)
+        if stale["outside_reads"]:
+            ctx.property_failure(scase, "check_staleness opened a file outside the base directory of the SOURCE_URI")
+        elif stale["escapes"] and (stale["status"] in ("FRESH", "STALE") or stale["hash"]):
+            ctx.property_failure(scase, "check_staleness hashed a SOURCE_URI that resolves outside its base directory")
         if mres is not None:
             m = mres[off + i]
             mm = ("OK " + dec_path(m.split(" ")[1]).replace(base, "{B}")) if m.startswith("OK") else m
@@ -900,8 +1306,29 @@ def run(ctx):
                 ctx.hist("out_of_model", "source URI: cycle followed by '..' (CPython resolve returns, model raises)")
             elif mm != ("RAISE" if oc.startswith("RAISE") else oc):
                 ctx.correspondence_failure(dict(case, model=mm), "validate_source_uri differs from the model")
+            elif stale["status"] in ("FRESH", "STALE") and not u.startswith(("/", "{B}")) and not mm.startswith("OK"):
+                # the model's containment is on COMPONENT lists (path_prefixb): a hash of a file the model places outside
+                ctx.correspondence_failure(dict(scase, model=mm), "check_staleness hashed a file the model's validate_uri does not accept")
+    for base_rel, u, oc, info in fu["cli"]:
+        ctx.count()
+        ctx.hist("cli_hydrate_check", ("escaping" if info["escapes"] else "inside") + " -> " + oc)
+        ctx.nontrivial(("cli-hydrate", base_rel, u))
+        case = {"surface": "octave hydrate FILE --check --project-root <base>", "source_uri": u, "base": "{B}/" + base_rel, "outcome": oc,
+                "escapes_base(os.path.realpath)": info["escapes"], "outside_reads": info["outside_reads"]}
+        if info["outside_reads"]:
+            ctx.property_failure(case, "octave hydrate --check opened a file outside --project-root")
+        elif info["escapes"] and ("FRESH:" in oc or "STALE:" in oc):
+            ctx.property_failure(case, "octave hydrate --check hashed a SOURCE_URI that resolves outside --project-root")
+    ctx.extra["source_uri_rule"] = (
+        "two base directories (sb, sb/d); beside each, sibling directories whose names have the base name as a proper prefix "
+        "(<base>-private, <base>2, <base>_old, <base>.bak) with readable .oct.md files, reached via '..', via absolute paths and via "
+        "links inside the base (to a sibling dir by relative / absolute target, to a sibling file); each URI through "
+        "validate_source_uri (result must be component-wise inside realpath(base); compared with the model, whose containment test "
+        "is path_prefixb on COMPONENT lists) and through check_staleness on a manifest naming it (escaping URI => ERROR, no hash; no "
+        "open() outside the base under interposition); the explicit sibling URIs also through `octave hydrate --check --project-root`")
     ctx.sample({"frozen": [(r, o) for r, o, *_ in fu["frozen"][:6]]})
-    ctx.sample({"source_uri": [(u, o) for u, o, _ in fu["uris"][:8]]})
+    ctx.sample({"source_uri": [(bb, u, o, st["status"]) for bb, u, o, _, st in fu["uris"] if "sb-private" in u or "sb2" in u][:8]})
+    ctx.sample({"cli_hydrate_check": [(bb, u, o) for bb, u, o, _ in fu["cli"][:6]]})
     ctx.assumptions += [
         "file-system model: tree of dirs/files/links; kernel walk with at most 40 followed links, NAME_MAX 255 code points (ASCII names in the generators), total path below PATH_MAX; validated against pathlib on every generated (tree, path) (os_model_checked / os_model_disagreements)",
         "Path.resolve(strict=False): a resolution needing more than 200 link expansions is treated as a cycle (out of model; CPython would resolve it or hit its recursion limit)",
